@@ -20,7 +20,7 @@ from numba_scfg.core import transformations as tr  # noqa: E402
 
 EXTRA_PROPS_FILES = ["Scfg/Props/C13Doms.lean", "Scfg/Props/C13Sub.lean", "Scfg/Props/C13Scc.lean", "Scfg/Props/C13Reach.lean"]
 LEVEL = "proof"
-NAMES = ["a", "b", "c", "d", "e", "f", "g", "h"]
+NAMES = ["a", "b", "c", "d", "e", "f", "g", "h", "i", "j", "k", "l", "m", "n"]
 
 
 def all_graphs(n, maxdeg):
@@ -196,6 +196,74 @@ def _work(chunk):
     return mism, fails, stats, len(chunk)
 
 
+def _doms_work(chunk):
+    """larger graphs, whole-graph queries only (head, SCCs, dominators, post-dominators, immediate ones)"""
+    drv = common.Driver()
+    lines, meta = [], []
+    for g in chunk:
+        scfg = mk(g)
+        top, hl = export.export(scfg)
+        rq = real_queries(scfg, len(g), [], [])
+        lines.append(f"H {top} {hl}")
+        meta.append(None)
+        for line, real, kind in rq:
+            lines.append("Q " + line)
+            lines.append("R " + line)
+            meta.append((g, line, real, kind))
+            meta.append("ref")
+    rep = drv.run(lines)
+    mism, fails = [], []
+    stats = Counter()
+    i = 0
+    while i < len(lines):
+        m = meta[i]
+        if m is None:
+            i += 1
+            continue
+        g, line, real, kind = m
+        stats[kind] += 1
+        mm, sf = compare(kind, line, real, rep[i], rep[i + 1], None)
+        i += 2
+        if mm:
+            mism.append((g, mm))
+        if sf:
+            fails.append((g, kind, sf))
+    return mism, fails, stats, len(chunk)
+
+
+def doms_inputs(tier, seed):
+    """6-12 nodes, out-degree <= 2 or 3, biased to cycles with several entries that feed each other"""
+    rng = random.Random(seed * 7177 + 131)
+    out = []
+    count = 6000 * common.boost() if tier == "quick" else 150000
+    for _ in range(count):
+        n = rng.randint(6, 10 if rng.random() < 0.8 else 12)
+        names = NAMES[:n]
+        g = []
+        for i in range(n):
+            k = rng.choice([1, 2, 2, 2, 3]) if i < n - 1 or rng.random() < 0.5 else 0
+            pool = names[1:] if rng.random() < 0.9 else names + ["x"]
+            g.append(tuple(rng.choice(pool) for _ in range(k)))
+        out.append(tuple(g))
+    return out
+
+
+def long_path_queries():
+    """reachability along a long path: the answer is known by construction, the query has to give it"""
+    fails = []
+    for n in (1200, 3000):
+        blocks = {f"b{i}": bb.BasicBlock(name=f"b{i}", _jump_targets=((f"b{i + 1}",) if i + 1 < n else ())) for i in range(n)}
+        g = SCFG(blocks)
+        for a, b, want in (("b0", f"b{n - 1}", True), (f"b{n - 1}", "b0", False), ("b0", "b1", True)):
+            try:
+                got = g.is_reachable_dfs(a, b)
+                if got != want:
+                    fails.append((n, a, b, f"is_reachable_dfs({a}, {b}) on a path of {n} blocks answers {got}"))
+            except BaseException as e:  # noqa: BLE001
+                fails.append((n, a, b, f"is_reachable_dfs({a}, {b}) on a path of {n} blocks raises {type(e).__name__}"))
+    return fails
+
+
 def inputs(tier, seed):
     rng = random.Random(seed * 31337 + 13)
     gs = []
@@ -332,6 +400,17 @@ def run(ctx):
     stats = Counter()
     for p in parts:
         stats.update(p[2])
+    dgs = doms_inputs(ctx["tier"], ctx["seed"])
+    dchunks = [dgs[i:i + 300] for i in range(0, len(dgs), 300)]
+    with mp.get_context("fork").Pool(nproc) as pool:
+        dparts = pool.map(_doms_work, dchunks)
+    mism += [m for p in dparts for m in p[0]]
+    fails += [f for p in dparts for f in p[1]]
+    for p in dparts:
+        stats.update(p[2])
+    stats["larger graphs (6-12 nodes), whole-graph queries only"] = len(dgs)
+    longfails = long_path_queries()
+    stats["reachability queries along paths of 1200 and 3000 blocks"] = 6
     smism, sfails, nsub, nstale = subgraph_queries(ctx)
     mism += smism
     fails += sfails
@@ -345,6 +424,11 @@ def run(ctx):
         g, sf = min(items, key=lambda x: (len(x[0]), sum(len(t) for t in x[0] if not isinstance(t, int))))
         violations.append({"signature": {"query": kind}, "what": f"query '{kind}' disagrees with its definition on {len(items)} inputs: {sf}",
                            "payload": {"graph": [list(t) for t in g], "detail": sf, "count": len(items)}})
+    if longfails:
+        violations.append({"signature": {"query": "reach-long-path"},
+                           "what": f"reachability on a long path: {longfails[0][3]} ({len(longfails)} of 6 queries)",
+                           "payload": {"path_blocks": longfails[0][0], "begin": longfails[0][1], "end": longfails[0][2],
+                                       "detail": longfails[0][3], "count": len(longfails)}})
     if mism:
         g, mm = mism[0]
         path = common.write_replay("C13", {"property": "C13", "kind": "correspondence-broken",
